@@ -84,11 +84,26 @@ func genFragLeaf(rt *rapid.T, fields []fieldSpec) *gen.Node {
 		if open != 1 && open != 6 {
 			n.Hi = val("hi")
 		}
+		if n.Lo != nil && n.Hi != nil {
+			switch rapid.IntRange(0, 9).Draw(rt, "boundrel") {
+			case 0:
+				n.Hi = n.Lo // equal bounds
+			case 1:
+				n.Lo, n.Hi = n.Hi, n.Lo // possibly min > max
+			}
+		}
 		n.IncLo = rapid.Bool().Draw(rt, "incl")
 		n.IncHi = n.IncLo
 	case gen.NList:
 		cnt := rapid.IntRange(2, 4).Draw(rt, "nvals")
+		if rapid.IntRange(0, 19).Draw(rt, "biglist") == 0 {
+			cnt = rapid.IntRange(5, 30).Draw(rt, "nbig")
+		}
 		for i := 0; i < cnt; i++ {
+			if i > 0 && rapid.IntRange(0, 7).Draw(rt, "dup") == 0 {
+				n.Vals = append(n.Vals, n.Vals[rapid.IntRange(0, i-1).Draw(rt, "dupof")])
+				continue
+			}
 			n.Vals = append(n.Vals, val("lv"))
 		}
 	}
@@ -96,6 +111,19 @@ func genFragLeaf(rt *rapid.T, fields []fieldSpec) *gen.Node {
 }
 
 func genFragNode(rt *rapid.T, fields []fieldSpec, depth int) *gen.Node {
+	if depth == 0 && rapid.IntRange(0, 29).Draw(rt, "chain") == 0 {
+		// a long chain of one operator (left- or right-deep)
+		k := rapid.SampledFrom([]gen.NKind{gen.NAnd, gen.NOr}).Draw(rt, "chainop")
+		cur := genFragLeaf(rt, fields)
+		for i := rapid.IntRange(8, 30).Draw(rt, "chainlen"); i > 0; i-- {
+			if rapid.Bool().Draw(rt, "right") {
+				cur = &gen.Node{K: k, L: genFragLeaf(rt, fields), R: cur}
+			} else {
+				cur = &gen.Node{K: k, L: cur, R: genFragLeaf(rt, fields)}
+			}
+		}
+		return cur
+	}
 	if depth >= 5 || rapid.IntRange(0, 9+3*depth).Draw(rt, "stop") >= 7 {
 		return genFragLeaf(rt, fields)
 	}
